@@ -83,6 +83,11 @@ def run(ctx):
                 if ctx.quick and (i + n + ctx.seed) % 2:
                     continue
                 jobs.append((i, dict(fam=fam, iw=False, ca='dict', poly=c['poly']), validator, 'map', 'bytes'))
+                if c['id'] == 'P4':
+                    # the flat layout itself: plain maps, and the positional form for fully populated values
+                    jobs.append((i, dict(fam=fam, iw=True, ca='dict', poly=False), validator, 'map', 'bytes'))
+                    if all(c02.full(f['t'], v) for f, v in zip(c['args'], c['vals'])):
+                        jobs.append((i, dict(fam=fam, iw=True, ca='list', poly=False), validator, 'list', 'bytes'))
     obs = c02.collect(ctx, cases, jobs)
     oldc = c02.case_class
     c02.case_class = poly_class
@@ -91,6 +96,7 @@ def run(ctx):
     finally:
         c02.case_class = oldc
     ctx.level = 'exploration'
+    ctx.cov_add(traces_validated_against_impl=len(jobs) - nd)
     ctx.cov_add(evaluations=len(recs) + len(jobs), cases=len(cases), xml_exchanges=len(recs), dict_exchanges=len(jobs),
                 distinct_nontrivial=len(recs) + len(jobs), exhaustive=not ctx.quick,
                 rule='PolyCases x {XmlDocument, Soap11, Soap12} x validator {None, soft, lxml} and x {JSON, YAML, MessagePack, '
